@@ -440,6 +440,12 @@ func (fr *Frame) setEdge(from, to *ssa.BasicBlock, c string) {
 // callees that will be inlined or have contracts). all=true means "anything".
 func (fr *Frame) loopWrites(li *loopInfo) (keys map[string]bool, all bool) {
 	keys = map[string]bool{}
+	if fr.e.spec != nil {
+		// call counters of this contract may be bumped anywhere in the loop
+		for _, g := range fr.e.spec.CallCount {
+			keys["X:"+g] = true
+		}
+	}
 	seenFn := map[*ssa.Function]bool{}
 	var scanFn func(fn *ssa.Function, blocks []*ssa.BasicBlock, depth int)
 	scanInstr := func(in ssa.Instruction, depth int) {
